@@ -116,17 +116,19 @@ def run(rep, tier):
         nonlocal t0
         phases[name] = round(time.time() - t0, 1)
         t0 = time.time()
-    rep.rule = ("TLC explores the rearrangement machine from every +,* tree with <= 3 leaves over {x, y, 0, 1, 2%s} at nat and at the ring "
-                "types, hand-picked seeds with - uminus ^ Suc and truncated subtraction as an opaque atom, every conjunction / disjunction "
-                "chain over member sets of <= 3 literals (incl. true, false, complementary literals, a compound member) and negated formulas, "
-                "growing to %s; every reachable state is replayed (ring orbits at int and at real; quick: a digest-selected half of the "
-                "arithmetic orbits, a quarter of those at int) through every normaliser of its kind; TLC enumerates all well-typed closed "
-                "terms with binders of size <= %d over {x, y, f, 0, +} plus rule redexes nested / under binders / conditional, beta-redexes "
-                "contracting to abstractions and eta-expansions; each is run with two binder namings through 53 combinator expressions; plus "
-                "seeded random 4-7 leaf expressions with random rearrangements. Non-trivial = the conversion returned an equation and the "
-                "contract, the checker replay and the exact value clause (polynomial / truth table) were evaluated, or an orbit with at "
-                "least two members of one class was compared; distinct by full event content."
-                % ((", z, 3", "4 leaves / 4 members / size 11", 8) if not quick else ("", "3 leaves / 3 members / size 9", 7)))
+    rep.rule = ("TLC explores the rearrangement machine (Comm, Assoc, Distrib, Factor, AddZero, MulOne, FoldNum/SplitNum, SucPlus, SubNeg, "
+                "NegMul, NegNeg, NegAdd, PowFold/Unfold, Dup/Dedup, DeMorgan, DNeg at every position) from every +,* tree with <= 3 leaves over "
+                "{x, y, 0, 1, 2} at nat and at the ring types, hand-picked seeds with - uminus ^ Suc and truncated subtraction as an opaque "
+                "atom, one chain per member set of <= 3 members (literals incl. true, false, complementary pairs, a compound member) for /\\ "
+                "and \\/, and negated formulas, growing to %s. An orbit = the reachable states of one class (polynomial / member set). Every "
+                "orbit is replayed (at most %d members of an orbit: the smallest and a seeded sample; ring orbits at real and %s at int) through "
+                "every normaliser of its kind. TLC enumerates all well-typed closed terms with binders of size <= %d over {x, y, f, 0, +} plus "
+                "rule redexes nested / under binders / conditional, beta-redexes contracting to abstractions, eta-expansions; a seeded 1/%d of "
+                "them (all conditional and abstraction-producing ones) is run with two binder namings through 53 combinator expressions; plus "
+                "%d seeded random orbits of 4-7 leaf expressions. Non-trivial = the conversion returned an equation and the contract, the "
+                "checker replay and the exact value clause (polynomial / truth table) were evaluated, or an orbit with at least two members "
+                "of one class was compared; distinct by full event content."
+                % (("3 leaves / 3 members / size 9", 30, "half of them", 6, 3, 40) if quick else ("4 leaves / 4 members / size 11", 100, "all", 7, 2, 1000)))
     rep.assumptions = ["formal polynomial identity over variable atoms = equality of the denoted functions on nat / int / real (infinite domains); "
                        "with opaque atoms (truncated subtraction) a difference is only a divergence",
                        "canonicity and idempotence are demanded of nat.norm_full, real.real_norm_conv, auto.auto_conv (reals), proplogic.norm_full / "
@@ -173,7 +175,7 @@ def run(rep, tier):
         rep.notes["term_universe"] = " ".join(r2.out[r2.out.find('<< "terms"'):].split(">>")[0].replace("<<", "").split())
     # ---- spec -> code: one driver process (theories loaded once), forked workers
     allp = wd / "events.ndjson"
-    arith_mod, int_mod, comb_mod, nrand, cap = (1, 2, 3, 40, 30) if quick else (1, 1, 2, 1000, 60)
+    arith_mod, int_mod, comb_mod, nrand, cap = (1, 2, 3, 40, 30) if quick else (1, 1, 2, 1000, 100)
     p, _ = run_driver("c10", ["all", dump_file, vec, allp, 3 if quick else 4, arith_mod, int_mod, comb_mod, nrand, seed(), cap], timeout=6000)
     rep.notes["driver"] = p.stdout.strip().splitlines()[-5:]
     phase("driver")
